@@ -23,6 +23,7 @@ pub struct ImageWriter<'a, T: Read + Write + Seek> {
     writer: &'a mut PagedWriter<T>,
     images: &'a mut Vec<Image>,
     image: Image,
+    finalized: bool,
 }
 
 impl<'a, T: Read + Write + Seek> ImageWriter<'a, T> {
@@ -47,6 +48,7 @@ impl<'a, T: Read + Write + Seek> ImageWriter<'a, T> {
                 sensor_model: None,
                 sensor_serial: None,
             },
+            finalized: false,
         })
     }
 
@@ -235,12 +237,17 @@ impl<'a, T: Read + Write + Seek> ImageWriter<'a, T> {
     /// that the data will be part of the E57 file but is never referenced by
     /// its XML header section.
     pub fn finalize(&mut self) -> Result<()> {
+        // A second call would list the image twice
+        if self.finalized {
+            Error::invalid("The image was already finalized")?
+        }
         if self.image.visual_reference.is_none() && self.image.projection.is_none() {
             Error::invalid("Image must have a visual reference or a projection")?
         }
 
         // Add metadata for XML generation later, when the file is completed.
         self.images.push(self.image.clone());
+        self.finalized = true;
 
         Ok(())
     }
